@@ -243,10 +243,105 @@ fn emit_sort(sink: &mut Sink, a: &Value, tag: &str) {
               &format!("{}:{}", tag, if changed { "reordered" } else { "unchanged" }), true);
 }
 
+// ------------------------------------------------------------------ the seven iterator wrappers, both ends (op `mapiter`)
+
+/// every observation of one iterator constructor `$mk` (evaluated afresh for each): see lean/SJ/Drv/C17.lean `iterFields`
+macro_rules! probe_iter {
+    ($mk:expr, $show:expr, $k:expr) => {{
+        let k: usize = $k;
+        let show = $show;
+        let list = |v: Vec<String>| if v.is_empty() { "_".to_string() } else { v.join(",") };
+        let opt = |o: Option<String>| match o { None => "N".to_string(), Some(s) => format!("S{}", s) };
+        let sz = |l: usize, h: (usize, Option<usize>)| format!("{}:{}:{}", l, h.0, h.1.map(|x| x.to_string()).unwrap_or_else(|| "?".into()));
+        let mut f: Vec<String> = vec![];
+        f.push(list($mk.map(&show).collect()));
+        f.push(list($mk.rev().map(&show).collect()));
+        { let mut it = $mk; let a = it.nth(k).map(&show); let rest: Vec<String> = it.map(&show).collect(); f.push(format!("{}+{}", opt(a), list(rest))); }
+        { let mut it = $mk; let a = it.nth_back(k).map(&show); let rest: Vec<String> = it.map(&show).collect(); f.push(format!("{}+{}", opt(a), list(rest))); }
+        f.push(opt($mk.rev().nth(k).map(&show)));
+        f.push(list($mk.rev().skip(k).map(&show).collect()));
+        f.push(list($mk.rev().step_by(2).map(&show).collect()));
+        f.push(list($mk.skip(k).map(&show).collect()));
+        f.push(list($mk.step_by(k + 1).map(&show).collect()));
+        f.push(list($mk.rev().step_by(k + 1).map(&show).collect()));
+        {
+            let mut s: Vec<String> = vec![];
+            { let it = $mk; s.push(sz(it.len(), it.size_hint())); }
+            { let mut it = $mk; let _ = it.next(); s.push(sz(it.len(), it.size_hint())); let _ = it.next_back(); s.push(sz(it.len(), it.size_hint())); }
+            { let mut it = $mk; let _ = it.nth(k); s.push(sz(it.len(), it.size_hint())); }
+            { let mut it = $mk; let _ = it.nth_back(k); s.push(sz(it.len(), it.size_hint())); }
+            f.push(s.join("+"));
+        }
+        f.push(opt($mk.last().map(&show)));
+        { let mut it = $mk;
+          let a = it.next().map(&show); let b = it.next_back().map(&show); let c = it.next().map(&show); let d = it.next_back().map(&show);
+          let rest: Vec<String> = it.map(&show).collect();
+          f.push([opt(a), opt(b), opt(c), opt(d), list(rest)].join("+")); }
+        { let mut it = $mk;
+          let x = it.nth_back(k).map(&show); let y = it.nth(k).map(&show); let n = it.len();
+          let rest: Vec<String> = it.map(&show).collect();
+          f.push([opt(x), opt(y), list(rest), n.to_string()].join("+")); }
+        f.join("/")
+    }};
+}
+
+fn iter_obs(m: &Map<String, Value>, k: usize) -> String {
+    fn kv<K: std::borrow::Borrow<String>, V: std::borrow::Borrow<Value>>(p: (K, V)) -> String { format!("{}~{}", hexf(p.0.borrow().as_bytes()), enc(p.1.borrow())) }
+    let guard = |name: &str, f: &mut dyn FnMut() -> String| -> String {
+        format!("{}={}", name, catch_unwind(AssertUnwindSafe(|| f())).unwrap_or_else(|_| "PANIC".into()))
+    };
+    let mut mm = m.clone();
+    let mut out: Vec<String> = vec![];
+    out.push(guard("iter", &mut || probe_iter!(m.iter(), |p: (&String, &Value)| kv(p), k)));
+    out.push(guard("iter_mut", &mut || probe_iter!(mm.iter_mut(), |p: (&String, &mut Value)| format!("{}~{}", hexf(p.0.as_bytes()), enc(p.1)), k)));
+    out.push(guard("into_iter", &mut || probe_iter!(m.clone().into_iter(), |p: (String, Value)| kv(p), k)));
+    out.push(guard("keys", &mut || probe_iter!(m.keys(), |p: &String| hexf(p.as_bytes()), k)));
+    out.push(guard("values", &mut || probe_iter!(m.values(), |p: &Value| enc(p), k)));
+    let mut mm = m.clone();
+    out.push(guard("values_mut", &mut || probe_iter!(mm.values_mut(), |p: &mut Value| enc(p), k)));
+    out.push(guard("into_values", &mut || probe_iter!(m.clone().into_values(), |p: Value| enc(&p), k)));
+    out.join("|")
+}
+
+fn emit_iter(sink: &mut Sink, ops: &str, k: usize, tag: &str) {
+    let mut m = Map::new();
+    if ops != "-" { for tok in ops.split(',') { let _ = apply(&mut m, tok); } }
+    let o = iter_obs(&m, k);
+    let rel = if k + 1 < m.len() { "k<len-1" } else if k + 1 == m.len() { "k=len-1" } else if k == m.len() { "k=len" } else { "k>len" };
+    let t = format!("mapiter:{}:{}:{}", tag, if m.len() > 3 { "len>3" } else { ["len0", "len1", "len2", "len3"][m.len()] }, rel);
+    sink.case("mapiter", &[cfg_tag(), ops, &k.to_string()], &o, &t, m.len() >= 2);
+}
+
+/// maps of 0..=9 entries inserted in ascending, descending and mixed key order, every `k` up to len + 1; then random histories
+fn run_iter(sink: &mut Sink, r: &mut Rng, thorough: bool) {
+    let keys = ["a", "b", "c", "d", "e", "f", "g", "h", "i"];
+    for n in 0..=9usize {
+        for order in 0..3 {
+            let mut ks: Vec<&str> = keys[..n].to_vec();
+            if order == 1 { ks.reverse(); }
+            if order == 2 { for i in (1..ks.len()).rev() { let j = r.below(i + 1); ks.swap(i, j); } }
+            let toks: Vec<String> = ks.iter().enumerate().map(|(i, k)| format!("in:{}:i{};", hexf(k.as_bytes()), i)).collect();
+            let h = if toks.is_empty() { "-".to_string() } else { toks.join(",") };
+            for k in 0..=n + 1 { if order == 0 || n <= 5 || thorough { emit_iter(sink, &h, k, "fixed"); } }
+        }
+    }
+    for i in 0..(if thorough { 6000 } else { 400 }) {
+        let pool = key_pool(r);
+        let len = if i % 10 == 0 { 40 + r.below(60) } else { 3 + r.below(25) };
+        let h = rand_hist(r, &pool, len);
+        let n = { let mut m = Map::new(); if h != "-" { for tok in h.split(',') { let _ = apply(&mut m, tok); } } m.len() };
+        let mut ks = vec![0usize, 1, r.below(n + 2)];
+        if n >= 2 { ks.push(n - 1); }
+        ks.sort(); ks.dedup();
+        for k in ks { emit_iter(sink, &h, k, "rand"); }
+    }
+}
+
 pub fn replay(sink: &mut Sink, toks: &[&str]) {
     // a recorded case is meaningful only in the configuration it was recorded in
     if toks.len() < 2 || toks[1] != cfg_tag() { return; }
     match (toks[0], toks.len()) {
+        ("mapiter", 4) => emit_iter(sink, toks[2], toks[3].parse().unwrap_or(0), "replay"),
         ("maphist", 3) => emit_hist(sink, toks[2], "replay"),
         ("mapeqh", 4) => emit_eqh(sink, toks[2], toks[3], "replay"),
         ("mapeq", 4) => emit_value_pair(sink, &dec_ordered(toks[2]), &dec_ordered(toks[3]), "replay"),
@@ -480,4 +575,7 @@ pub fn run(sink: &mut Sink, thorough: bool, seed: u64) {
         emit_hash(sink, &b, "hash");
         emit_sort(sink, &b, "sort");
     }
+    // 5. the iterator wrappers from both ends (own generator state: the cases above stay what they were)
+    let mut r2 = Rng::new(seed ^ 0x17e7_17e7);
+    run_iter(sink, &mut r2, thorough);
 }
